@@ -91,6 +91,10 @@ type Stream struct {
 	// dropped, and the stream is recycled when it reports back.
 	abandoned bool
 
+	// blockFields counts the fields decoded so far in the header block that is
+	// being received, across the HEADERS frame and its CONTINUATIONs.
+	blockFields int
+
 	// headerListSize is the running RFC 7540 6.5.2 size of the header block
 	// being decoded, summed across the HEADERS frame and its CONTINUATIONs.
 	headerListSize int
@@ -141,6 +145,7 @@ func NewStream(id uint32, win int32) *Stream {
 	strm.abandoned = false
 	strm.origType = 0
 	strm.headerListSize = 0
+	strm.blockFields = 0
 
 	return strm
 }
